@@ -178,7 +178,7 @@ def shard(arg):
     # C06's open finding (definitions made in loop bodies may not reach later uses) would show here as uncovered values
     c06_open = any(e.get("id") == "C06-loop-visit-limit" and e.get("status") == "open" for e in common.load_known("C06"))
     if c06_open:
-        col.stepovers["C06-loop-visit-limit: variables of the enclosing code are not re-assigned inside loop bodies"] += 1
+        col.stepovers["C06-loop-visit-limit: variables of the enclosing code are not re-assigned inside loop bodies; at most one loop per program"] += 1
 
     # C08's own open finding: the summary of a callee is computed for the first visit of a call statement and applied
     # again on later visits (code in or after a loop is visited up to three times)
@@ -189,7 +189,7 @@ def shard(arg):
     @hypothesis.seed(seed)
     @settings(max_examples=n_examples, deadline=None, database=None, derandomize=False, report_multiple_bugs=False,
               suppress_health_check=list(HealthCheck), phases=[hypothesis.Phase.generate])
-    @hypothesis.given(gen_val.programs(loops=True, lists=True, loop_overwrite=not c06_open, callee_revisit=not revisit_open), st.integers(0, 50), st.sampled_from(gen_val.HOSTILE))
+    @hypothesis.given(gen_val.programs(loops=True, lists=True, loop_overwrite=not c06_open, callee_revisit=not revisit_open, single_loop=c06_open), st.integers(0, 50), st.sampled_from(gen_val.HOSTILE))
     def prop(prog, idx, hostile):
         ds, info = cover_oracle(prog)
         col.evaluations += 1
